@@ -36,6 +36,7 @@ def handle (f : List String) : String :=
       let dump := m'.lvs.map (fun lv => s!"{showTuple lv.labels}={lv.value.1}/x{lv.expiry / 1000000}")
       let agree := m'.lvs.all (fun lv => match find m' lv.labels with | some lv' => lv'.id == lv.id | none => false)
       s!"ok {"|".intercalate dump} idx={m'.index.length} agree={b2i agree} other=3"
+  | "gcrace" :: _ => "-"
   | _ => "BAD-CASE"
 
 end MtailVerif.Driver.C10
